@@ -15,7 +15,8 @@ What is compared (only uniquely defined quantities, tolerance bcc.oracle_lp.clos
   each variant with the baseline (processes=1, model order, no delays) item by item, keyed by identifier; the set of
   returned items with the requested set; every item asked for ALONE with its baseline row (small models: all items,
   textbook: a seeded handful).  (Truth of the values themselves is C05 / C06 / C19, not asked here.)
-  Analyses: flux_variability_analysis (fraction 1.0 and 0.9), find_blocked_reactions, find_essential_genes /
+  Analyses: flux_variability_analysis (fraction 1.0 and 0.9, pfba_factor 1.5; not loopless=True, whose values depend on
+  the vertex the solver happens to return and are not uniquely defined), find_blocked_reactions, find_essential_genes /
   find_essential_reactions, single_/double_ gene_/reaction_deletion (fba; linear moma on small models, where only rows
   whose MOMA optimum fixes the objective — decided by the exact LP — and the status are compared).
   Sampling: OptGPSampler with processes in {1, 2}: documented number of rows (smallest multiple of `processes` >= n),
@@ -149,7 +150,7 @@ def small_spec(rng):
 # analyses: each returns {item key: value tuple}
 # ----------------------------------------------------------------------------------------------------------------------
 def _items(model, fn):
-    if fn in ("fva", "fva90", "blocked", "blocked_open", "single_reaction", "double_reaction", "moma_reaction"):
+    if fn in ("fva", "fva90", "fva_pf", "blocked", "blocked_open", "single_reaction", "double_reaction", "moma_reaction"):
         return [r.id for r in model.reactions]
     if fn in ("single_gene", "double_gene", "moma_gene"):
         return [g.id for g in model.genes]
@@ -161,9 +162,9 @@ def call(model, fn, items, processes, items2=None):
     from cobra import flux_analysis as FA
     from cobra.flux_analysis.variability import (find_blocked_reactions, find_essential_genes, find_essential_reactions,
                                                  flux_variability_analysis)
-    if fn in ("fva", "fva90"):
-        df = flux_variability_analysis(model, reaction_list=items, fraction_of_optimum=1.0 if fn == "fva" else 0.9,
-                                       processes=processes)
+    if fn in ("fva", "fva90", "fva_pf"):
+        df = flux_variability_analysis(model, reaction_list=items, fraction_of_optimum=0.9 if fn == "fva90" else 1.0,
+                                       pfba_factor=1.5 if fn == "fva_pf" else None, processes=processes)
         if len(set(df.index)) != len(df.index):
             return {"__dup__": tuple(df.index)}
         return {k: (float(df.at[k, "minimum"]), float(df.at[k, "maximum"])) for k in df.index}
@@ -477,7 +478,7 @@ CHAIN = {"mets": ["m0_c", "m1_c", "m2_c"],
                   ["R1", 0.0, 1000.0, {"m1_c": -1.0, "m2_c": 1.0}, ["or", [0, 1]]],
                   ["EX_out", 1.0, 1000.0, {"m2_c": -1.0}, ["and", [1, 2]]]],
          "objective": {"EX_out": 1.0}, "direction": "max", "genes": ["g1", "g11", "ab"]}
-SMALL_FNS = ["fva", "fva90", "blocked", "essential_genes", "essential_reactions", "single_gene", "single_reaction",
+SMALL_FNS = ["fva", "fva90", "fva_pf", "blocked", "essential_genes", "essential_reactions", "single_gene", "single_reaction",
              "double_gene", "double_reaction", "moma_gene", "moma_reaction"]
 
 
@@ -498,7 +499,7 @@ def run(tier, seed):
         if i < (6 if quick else 40):
             tasks.append(("sampling", (spec, rng.randrange(10 ** 6), 1 + i % 2, rng.choice([3, 5, 7]), 3)))
             tasks.append(("sampling", (spec, rng.randrange(10 ** 6), 2, rng.choice([3, 5, 8]), 2)))
-    tb = [("fva", 3, 4), ("fva90", 2, 2), ("blocked", 2, 3), ("blocked_open", 1, 0), ("essential_genes", 2, 0),
+    tb = [("fva", 3, 4), ("fva90", 2, 2), ("fva_pf", 1, 1), ("blocked", 2, 3), ("blocked_open", 1, 0), ("essential_genes", 2, 0),
           ("essential_reactions", 2, 0), ("single_gene", 3, 5), ("single_reaction", 2, 4), ("double_gene", 2, 2),
           ("double_reaction", 2, 2)]
     for fn, nv, ns in tb:
